@@ -178,6 +178,7 @@ class World:
         self.sid: dict[str, str] = {}  # e<n> -> structural id
         self.creator: dict[str, str] = {}  # e<n> -> actor that created (and first dispatched) it
         self.nev = 0
+        self.spawned = []  # background tasks started by handlers (spawn_dispatch)
         self.nact = 0
         self.task_act: dict[Any, str] = {}
         self.act_info: dict[str, tuple] = {}  # act -> (bus, ev, hi)
@@ -308,6 +309,20 @@ async def run_prog(w: World, prog, actor: str, depth: int, in_handler: bool, sid
             b = binds.get(op[2])
             if b is not None:
                 do_dispatch(w, actor, op[1], b[0], b[1])
+        elif o == 'spawn_dispatch':
+            # a background task started by the handler: asyncio copies the handler's context into it, so what it
+            # dispatches later still counts as a child of the handler's event
+            _, delay, busn, typ = op
+            if w.nev >= sc.get('max_events', 160):
+                continue
+            name, ev = w.new_event(typ, depth + 1 if in_handler else 0, {}, actor, f'{sid_prefix}.{opi}')
+
+            async def later(delay=delay, busn=busn, name=name, ev=ev):
+                await asyncio.sleep(delay)
+                w.last_progress = w.loop.time()
+                do_dispatch(w, actor, busn, name, ev)
+
+            w.spawned.append(asyncio.get_running_loop().create_task(later()))
         elif o == 'redispatch_self':
             if event is not None:
                 do_dispatch(w, actor, op[1], w.names[event.event_id], event)
